@@ -14,6 +14,9 @@ CLAIMS = {
  "C03": ("proof", "NoteOn/NoteOff postconditions give the exact emitted sequence per collision mode as a function of the holder counter, and lemmas over the counting invariant identify counter==0 / counter==1 with first / last holder.", "6 C03"),
  "C04": ("proof", "NoteOn's postcondition is the statement's formula in 64-bit arithmetic (base + 12*octave + semitone, silent outside 0..127, channel (ch+offset) mod 16, configured velocity); each action's contract gives unit steps / saturation / pair reset, carried through invokeActionPress (dynamic dispatch proved against the table) and handleKEYEvent.", "6 C04"),
  "C05": ("proof", "One assertion attached to every send on the device's output channel (so new emission sites are covered): three bytes, status nibble Note Off/Note On/CC/Pitch Bend, data bytes <= 127. Discharged from the event constructors' contracts, wf (channel < 16, velocity, tracked pairs in range), cfgRanges, and for axis values from exact IEEE-754 stage facts (cut points) of handleABSEvent: normalised, centred, deadzone-shaped and flipped value ranges for ANY float64 deadzone, then 127*x -> int -> byte with amd64 conversion semantics. ParseData -> NewDevice -> ProcessEvents chain carries the configuration facts; cfgRanges of ParseData's result rests on its per-entry store-site assertions plus a write-once argument (stated, not a discharged postcondition).", "6 C05"),
+ "C06": ("proof", "Exact-IEEE cut facts on handleABSEvent (proved for all int32 axis ranges and positions, every deadzone in [0,1)): normalised/centred/shaped/flipped value ranges and signs, physical end stops map to exactly +-1.0 and the rest position to exactly 0.0, and from there the transmitted bytes are exactly 127 / 0 / mid-scale / pitch-bend 8192 and 16383 (PitchBendEvent contract). 'Within one step' and 'monotonic' are relational float statements: bounded stand-in on the real code (labelled bounded).", "6 C06"),
+ "C07": ("proof", "Postconditions of handleABSEvent for the two bidirectional arms: the first emitted event goes to the controller and channel of the side the shaped value is on, the other side gets an explicit 0 unless it is already marked zeroed, and with the invariant zeroedOK (a controller marked zeroed is 0 at the receiver; ghost receiver state updated at every send) at most one side is non-zero; the learning gate transmits nothing and leaves the marks untouched. Holds for every pre-state, hence for crossing the centre in one jump.", "6 C07"),
+ "C08": ("proof", "Postconditions of handleABSEvent for the key-emulation arm in terms of the value the threshold switch sees: on once at >= 0.5 with the transposed configured note and channel, off below 0.49, unchanged in between, never both directions tracked, silent in an unconfigured direction; AnalogNoteOn/AnalogNoteOff contracts pin the Note Off to the tracked pair; ParseData's store-site assertions cover note_negative and the offsets.", "6 C08"),
  "C09": ("proof", "Zero-annotation safety sweep (nil dereference, nil-map update, index/slice bounds, division by zero, reachable panic) over ParseData, TomlKeyToEvCode, StringToNote, readDeviceConfig and LoadHIDIConfig with the decoder's output havocked to ANY value of the target struct (a superset of what any file content decodes to); all loops are range loops (structural termination). The third-party decoder itself is an assumption.", "6 C09"),
  "C10": ("proof", "Per-entry fidelity and range clauses are assertions at the map-store sites of ParseData (selected by static map type), top-level fields, defaults (velocity 0 -> 64, channel 1..16, existing default mapping), colours and cfgOK are postconditions, name fidelity of the mapping list is a loop invariant; strict decoding is a typestate obligation on the Decode call. 'What the file states' is taken at the decoded struct (decoder assumed).", "6 C10"),
  "C11": ("proof", "StringToNote is proved equivalent to the 128-name specification (accepts exactly the valid names, returns the specified number) over a byte-level string model, with the regular expression's behaviour as an assumed contract pinned to the exact pattern (hv refuses it for any other pattern); NoteToPitch/NoteToOctave contracts plus round-trip/injectivity lemmas. A bounded stand-in runs the real functions over all short strings to guard that one assumption (labelled bounded).", "6 C11"),
